@@ -10,6 +10,8 @@ vf_results R;
 vf_args A;
 void (*vf_cex_writer)(FILE *f);
 int vf_suppress;
+uint64_t vf_violation_events;
+double vf_first_violation_t;
 
 double vf_now_s(void) { struct timespec ts; clock_gettime(CLOCK_MONOTONIC, &ts); return ts.tv_sec + ts.tv_nsec * 1e-9; }
 
@@ -49,6 +51,8 @@ int vf_nviolations(void) { return nV; }
 void vf_violation(const char *sig, const char *fmt, ...) {
     int i;
     if (vf_suppress) return;
+    if (!vf_violation_events) vf_first_violation_t = vf_now_s();
+    vf_violation_events++;
     for (i = 0; i < nV; i++) if (strcmp(V[i].sig, sig) == 0) { V[i].count++; return; }
     if (nV == MAXV) return;
     struct viol *v = &V[nV];
@@ -157,6 +161,7 @@ void vf_parse_args(int argc, char **argv, const char *property) {
         else if (!strcmp(k, "-v")) A.verbose = 1;
         else vf_harness_error("unknown argument %s", k);
     }
+    if (A.deadline <= 0) A.deadline = vf_thorough() ? 1500 : 150;
     memset(&R, 0, sizeof R);
     R.property = property; R.out_path = A.out; R.cex_dir = A.cexdir;
 }
